@@ -55,6 +55,16 @@ class LazySummaries(dict):
                 yield m, self[m]
 
 
+def summary_of(report, sums, m):
+    """Summary of one mnemonic, or None when its encoder left the abstract domain: the no-verdict is deferred (Report.undecided) so
+    that a violation established for another mnemonic / by another rule of the same run is still reported."""
+    try:
+        return sums[m]
+    except AnalysisError as e:
+        report.undecided(str(e))
+        return None
+
+
 def all_summaries(facts):
     key = id(facts)
     if key not in _cache:
@@ -104,6 +114,26 @@ def oracle_cells(op):
 
 def canon(cells):
     return [c.tup() for c in merge_cells(cells)]
+
+
+def same_accepted_set(a, b, limit=1 << 16):
+    """Do two families of canonical cells describe the same set of (operand value, adjustment) pairs?  The cell form is not unique
+    (31 singletons with a congruence each are the interval [1, 31]); finite families are compared as sets."""
+    if a == b:
+        return True
+
+    def members(cells):
+        out = set()
+        for (lo, hi, delta, m, r) in cells:
+            if lo <= -INF or hi >= INF or (hi - lo) // max(m, 1) > limit:
+                return None
+            first = lo + ((r - lo) % m) if m > 1 else lo
+            out.update((v, delta) for v in range(first, hi + 1, m))
+            if len(out) > limit:
+                return None
+        return out
+    ma, mb = members(a), members(b)
+    return ma is not None and mb is not None and ma == mb
 
 
 def show_cells(tups):
@@ -234,7 +264,7 @@ def compare_with_oracle(summary, spec):
             expected[pos] = (info['src'], j)
         want = oracle_cells(op)
         got = canon(info['cells'])
-        if want != got:
+        if not same_accepted_set(want, got):
             out.append(('accepted:' + p, 'operand {} ({}): accepted set is {} but the legal set is {}'.format(
                 p, op['role'], show_cells(got), show_cells(want))))
     if len(expected) != width:
